@@ -306,6 +306,22 @@ def directed_templates():
         for k in range(1 << len(mods)):
             srcm = [names[i] for i in range(len(mods)) if k >> i & 1]
             tmpl([("elem", "view", [], [use(n) for n in names])], modules=mods, src_modules=srcm, slot_values=False)
+    # a <block> with `slot:` references of its own: the names are in scope inside it, next to for variables and element references declared deeper,
+    # and out of scope after it
+    blk = lambda refs, kids: ("block", kids, None, refs)
+    box = lambda n: ("elem", "v", [("plain", "title", d(n))], [txt(n)])
+    for host in ("cmp-x", "view"):
+        tmpl([("elem", host, [], [blk([("a", None)], [box("a"), ("for", d("l"), None, None, None, ("elem", "view", [], [box("item"), box("a"), box("index")]))]), box("a")])])
+        tmpl([("elem", host, [], [blk([("sv", "a"), ("b", None)], [("elem", "view", [("slot:", "item", None)], [box("item"), box("a"), box("b")]),
+                                                                 ("for", d("l"), "b", None, None, ("block", [box("b"), box("a"), box("index")])), box("b")]), box("b")])])
+        tmpl([("elem", host, [], [blk([("a", None)], [blk([("b", None), ("a", "it")], [box("a"), box("b"), box("it"), ("for", d("o"), "a", "b", None, ("block", [box("a"), box("b"), box("it")]))]), box("a"), box("b")])])])
+    # script modules are in scope in EVERY <template name> of the file (the first, the second, the third), next to a for variable of the same name
+    for mods in ([pool[0]], [pool[0], pool[1]], [pool[2], pool[1], pool[0]]):
+        names = [m[0] for m in mods]
+        for srcm in ([], names[:1]):
+            body = lambda k: [use(n) for n in names] + [("for", d("l"), names[k % len(names)], None, None, ("block", [txt(names[k % len(names)])]))] + [use(names[-1])]
+            out.append({"path": "p", "nodes": [("tref", ("static", "s%d" % k), None) for k in range(3)] + [use(n) for n in names],
+                        "subs": {"s%d" % k: body(k) for k in range(3)}, "modules": list(mods), "slot_values": False, "src_modules": list(srcm)})
     return out
 
 
